@@ -111,6 +111,10 @@ def _do_call(call):
         return fn(a, b, c), "quasirandom_%s_batch(%d, %d, %d)" % (method, a, b, c)
     if route == "front":
         d2 = None if b == 0 else b
+        if c == 1 and (a + (b or 0)) % 2 == 0:
+            # the documented default seed is 1: leaving the argument out is the same call
+            return (S.quasirandom(a, d2, method=method),
+                    "quasirandom(%d, %r, method=%r)" % (a, d2, method))
         return (S.quasirandom(a, d2, method=method, seed=c),
                 "quasirandom(%d, %r, method=%r, seed=%d)" % (a, d2, method, c))
     raise ValueError(route)
@@ -333,6 +337,23 @@ def run(ctx, explain=False):
             calls.append(["batch", "sobol", st, st + n - 1, D])
         calls += [list(c) for c in calls[:4]]
         sessions.append({"calls": calls, "source": "threads", "threads": 6})
+    # Korobov windows that end exactly on, or straddle, 2^16 - 1 and other all-ones seeds; points with a coordinate within 6e-8 of 1
+    for e in (8, 15, 16, 17):
+        D = rng.choice([1, 2, 5, 31])
+        top = (1 << e) - 1
+        calls = [["batch", "kgf", top - rng.randint(3, 40), top, D], ["batch", "kgf", top - 5, top + 6, D], ["front", "kgf", 7, D, top - 6],
+                 ["single", "kgf", top, D, 0], ["single", "kgf", top + 1, D, 0], ["front", "kgf", D, 0, top]]
+        rng.shuffle(calls)
+        sessions.append({"calls": calls, "source": "kgf-all-ones-seed"})
+    for D, sd in ((31, 320), (47, 3887), (2, 31879)):
+        calls = [["front", "kgf", D, 0, sd], ["single", "kgf", sd, D, 0], ["front", "kgf", 3, D, sd - 1], ["batch", "kgf", sd - 1, sd + 1, D]]
+        sessions.append({"calls": calls, "source": "kgf-coordinate-next-to-one"})
+    # the default seed: calls that leave the seed out (single-point and batch form, both methods)
+    for method in ("sobol", "kgf"):
+        for D in (1, 2, 3, 6):
+            calls = [["front", method, D, 0, 1], ["single", method, 1, D, 0], ["front", method, 4, D, 1], ["batch", method, 1, 4, D],
+                     ["front", method, D + 1, 0, 1], ["front", method, 3, D + 1, 1]]
+            sessions.append({"calls": calls, "source": "default-seed"})
     # windows that start at the first point: the net properties are checked on the returned numbers
     for i in range(ctx.pick(6, 40)):
         D = [1, 2, 3, 8, 40, 1000][i] if i < 6 else rng.randint(1, 1000)
